@@ -26,14 +26,6 @@ import (
 
 // C13 — operations are pure: config and caller inputs are never modified.
 
-type pcall struct {
-	Op   string `json:"op"`
-	Seed uint64 `json:"seed"`
-	N    int    `json:"n,omitempty"`
-	K    int    `json:"k,omitempty"`
-	Flag bool   `json:"flag,omitempty"`
-}
-
 type c13Case struct {
 	Calls []pcall `json:"calls"`
 	Probe []int   `json:"probe"` // positions (call indices) after which the fixed probe call is replayed
